@@ -515,3 +515,8 @@ func vfTimersFire(b bool) {}
 // vfSymbolic is true when the harness is executed by the symbolic engine and
 // false in a native replay.
 func vfSymbolic() bool { return false }
+
+// vfUseReal / vfUseRealPkg: engine directives (no effect natively, where the
+// real code always runs).
+func vfUseReal(callee string)  {}
+func vfUseRealPkg(path string) {}
